@@ -51,7 +51,12 @@ CLAIMED = {
             "accepted) IS proved: parse_complete / parse_complete_str (every Parseable tree = canonical + lexable texts + "
             "convertible numerals is returned, up to ==, for every token sequence spelling it: a second kernel-checked "
             "certificate compl_ok of the tables, regenerated on every run, sound for arbitrary tables by run_complete), "
-            "parse_parseable (every parse result is Parseable), parse_image (the class is exactly the image of the parser).",
+            "parse_parseable (every parse result is Parseable), parse_image (the class is exactly the image of the parser). "
+            "C03d: a READABLE declarative grammar `Denotes level tokens tree` (one inductive rule per clause of the prose, "
+            "levels implicit > or > and > prefix/field > suffix > atom, n-ary flat operations, FieldGroup exactly after "
+            "field:, bracket kind and < <= > >= give inclusiveness, reserved words only as whole tokens) with denotes_iff "
+            "(Denotes .implicit toks t <-> Parseable t and yield t = toks), parse_denotes, denotes_parse, denotes_unique "
+            "(the grammar is unambiguous up to ==), and the precedence examples of the property as derivations.",
             NOTE_COMMON + "Semantic actions and lexer recognisers are hand-modelled; tables, precedence, regex trees and the "
             "certificate are translated from the live objects (the certificate generator is untrusted: only its kernel check counts).", "5 C03"),
     "C04": ('Lean 4 proof (totality: parse never yields a model-internal error; fuel sufficiency; history independence on a stateful lexer model) + correspondence over call histories with forked history-free references',
